@@ -415,7 +415,7 @@ func cmdGen(args []string) {
 var wrapFamilies = map[string]bool{"ledger": true, "positions": true, "chain": true, "orders": true}
 var wrapable = map[string]bool{"swapIn": true, "swapOut": true, "join": true, "exit": true, "bond": true, "unbond": true, "levOpen": true, "levClose": true,
 	"perpOpen": true, "perpClose": true, "perpClosePositions": true, "levClosePositions": true, "claim": true, "send": true, "spotOrder": true,
-	"execOrders": true, "commitClaimed": true, "uncommit": true, "incentive": true, "createAssetInfo": true, "cancelSpot": true, "perpOrder": true, "stake": true, "unstake": true, "withdrawStaking": true}
+	"execOrders": true, "commitClaimed": true, "uncommit": true, "incentive": true, "createAssetInfo": true, "cancelSpot": true, "perpOrder": true, "stake": true, "unstake": true, "withdrawStaking": true, "swapByDenom": true}
 
 // closeLists builds a bot's close-positions step: the requests go into one of the message's lists; one time in three the SAME
 // requests are named in a second list as well (a bot that lists a position both for liquidation and for its stop-loss).
